@@ -309,6 +309,40 @@ func checkIndexes(t *tree.Tree, m *ref.Node) error {
 			return fmt.Errorf("TopoDepth %d, expected %d", d, k)
 		}
 	}
+	// hashes ("indexes ready for use"): every branch must be found in a split index built from the
+	// same tree read again from its text, compare equal to its counterpart there and hash like it
+	if fresh, err := gt.FromModel(m); err == nil {
+		if err := fresh.ReinitIndexes(); err != nil {
+			return fmt.Errorf("the generated tree's text cannot be indexed: %v", err)
+		}
+		fpairs, err := gt.PairEdges(fresh, m)
+		if err != nil {
+			return err
+		}
+		byNode := map[*ref.Node]*tree.Edge{}
+		for _, p := range fpairs {
+			byNode[p.M] = p.E
+		}
+		idx := tree.NewEdgeIndex(uint64(len(fpairs))*2+1, 0.75)
+		for i, p := range fpairs {
+			idx.PutEdgeValue(p.E, i, p.E.Length())
+		}
+		for _, p := range pairs {
+			f := byNode[p.M]
+			if f == nil {
+				continue
+			}
+			if !p.E.SameBipartition(f) {
+				return fmt.Errorf("branch above clade %v of the generated tree and the same branch of the tree read from its text are not SameBipartition", p.M.Tips())
+			}
+			if p.E.HashCode() != f.HashCode() {
+				return fmt.Errorf("branch above clade %v: HashCode %d on the generated tree, %d on the tree read from its text", p.M.Tips(), p.E.HashCode(), f.HashCode())
+			}
+			if _, ok := idx.Value(p.E); !ok {
+				return fmt.Errorf("branch above clade %v of the generated tree is not found in a split index built from the tree read from its text", p.M.Tips())
+			}
+		}
+	}
 	// node depths ("length of the path from n to the closest tip", computed with the indexes):
 	// judged on unrooted trees, where the documented definition leaves no choice
 	if t.Root().Nneigh() >= 3 {
@@ -481,7 +515,7 @@ func TestC16Generators(t *testing.T) {
 	}
 	h.Run(t, h.Spec[Case]{
 		Property: "C16", Name: "generators", Quick: 12000, Thorough: 320000,
-		Rule: "6 generators (uniform, Yule, caterpillar, balanced, star, star from names) x sizes -1..60 (thorough 400; depth -1..7/10) with a quarter of the cases at -1..4 x rooted x seed; valid sizes must succeed and give a structurally well-formed binary tree (root degree 2 or 3 as requested) with exactly n uniquely named tips, all lengths present and >= 0, TipIndex/bitsets/TopoDepth and (unrooted trees) node depths correct without further calls, caterpillar (inner nodes form a path) / perfectly balanced / single-inner-node shape; sizes below the documented minimum must be refused with an error; 2 tips unrooted (no binary unrooted tree exists) may be refused or not but must not crash; 5% of the cases through `gotree generate ... --seed -n -l/-d [-r]`, half of them with -o file (exit status, number of trees, shape, no Go panic trace); non-trivial = valid size with >= 5 tips",
+		Rule: "6 generators (uniform, Yule, caterpillar, balanced, star, star from names) x sizes -1..60 (thorough 400; depth -1..7/10) with a quarter of the cases at -1..4 x rooted x seed; valid sizes must succeed and give a structurally well-formed binary tree (root degree 2 or 3 as requested) with exactly n uniquely named tips, all lengths present and >= 0, TipIndex/bitsets/TopoDepth, split hashes (each branch found in a split index built from the tree's own text) and (unrooted trees) node depths correct without further calls, caterpillar (inner nodes form a path) / perfectly balanced / single-inner-node shape; sizes below the documented minimum must be refused with an error; 2 tips unrooted (no binary unrooted tree exists) may be refused or not but must not crash; 5% of the cases through `gotree generate ... --seed -n -l/-d [-r]`, half of them with -o file (exit status, number of trees, shape, no Go panic trace); non-trivial = valid size with >= 5 tips",
 		Gen: genCase, Check: check, Anchors: anchors,
 		Classify: func(c Case) (bool, []string) {
 			e := expectation(c)
